@@ -36,6 +36,7 @@ type Timer struct {
 	resets []Value
 	durFirst Value
 	viaAfter bool
+	owner    *G
 }
 
 func (t *Timer) String() string { return fmt.Sprintf("timer#%d", t.id) }
@@ -49,6 +50,11 @@ func (t *Timer) fire(r *Run) {
 	r.obs = append(r.obs, fmt.Sprintf("timer#%d fires (d=%s)", t.id, showVal(t.dur)))
 	if t.ch != nil && len(t.ch.buf) < t.ch.cap {
 		t.ch.buf = append(t.ch.buf, zero(t.ch.elem))
+	}
+	if t.fn != nil && t.owner != nil {
+		ng := r.newG("AfterFunc", t.owner.lib)
+		fn := t.fn
+		r.startG(ng, func() { ng.callFn(fn, nil, nil, 0) })
 	}
 }
 
